@@ -16,6 +16,7 @@ EXPLANATION = [
     'C05.assembler: in HCI_AclDataPacketAssembler.feed_packet a start fragment replaces the state, a continuation without start '
     'changes nothing, completion and overflow reset the state, and the completion threshold is the L2CAP length + the 4-byte basic header.',
     'C05.l2cap-header: L2CAP_PDU header is <HH> (length, cid) on both sides and the payload starts at 4.',
+    'C05.queue-geometry: each of the three host data queues takes max_packet_size and max_in_flight from the Read Buffer Size fields of its own buffer pool (ACL / LE ACL / ISO); LE shares the classic queue iff the controller announced no LE pool.',
     'C05.queue-order: the ACL queue between fragmentation and the controller is FIFO (including rebuilds on flush).',
     'Not decided: byte identity end to end for all sizes (runtime data).',
 ]
@@ -261,7 +262,60 @@ def queue_order(ctx):
             R.ok(rule, o.key, o.fact, o.loc)
 
 
+
+QUEUE_FAMILY = {'acl_packet_queue': 'acl', 'le_acl_packet_queue': 'le_acl', 'iso_packet_queue': 'iso'}
+
+
+def _family_of(field: str):
+    """which buffer family a Read Buffer Size return field describes."""
+    f = field.lower()
+    if 'iso' in f:
+        return 'iso'
+    if 'le_acl' in f or f.startswith('le_'):
+        return 'le_acl'
+    if 'acl' in f:
+        return 'acl'
+    return None
+
+
+def queue_geometry(ctx):
+    """Each data queue is dimensioned with the packet length and count the controller announced for *that* buffer pool."""
+    R, p = ctx.r, ctx.p
+    rule = 'C05.queue-geometry'
+    fn = p.find(f'{HOST}.reset')
+    if fn is None:
+        R.bad(rule, f'{HOST}.reset', 'anchor missing')
+        return
+    # local <- response field(s)
+    src = {}
+    for n in ast.walk(fn):
+        if isinstance(n, ast.Assign) and len(n.targets) == 1 and isinstance(n.targets[0], ast.Name) and isinstance(n.value, ast.Attribute) and isinstance(n.value.value, ast.Name) and n.value.value.id.startswith('response'):
+            src.setdefault(n.targets[0].id, set()).add(n.value.attr)
+    n_q = 0
+    for n in ast.walk(fn):
+        if isinstance(n, ast.Assign) and isinstance(n.value, ast.Call) and dotted(n.value.func) == 'DataPacketQueue':
+            tgt = (dotted(n.targets[0]) or '').replace('self.', '')
+            fam = QUEUE_FAMILY.get(tgt)
+            if fam is None:
+                R.bad(rule, f'{HOST}.reset | {tgt}', 'data queue assigned to an attribute outside the known families', p.loc(n))
+                continue
+            n_q += 1
+            for kw, kind in (('max_packet_size', 'length'), ('max_in_flight', 'num')):
+                v = kwarg(n.value, kw)
+                fields_ = src.get(v.id, set()) if isinstance(v, ast.Name) else ({v.attr} if isinstance(v, ast.Attribute) else set())
+                fams = {_family_of(f) for f in fields_}
+                ok = bool(fields_) and fams == {fam} and all(kind in f for f in fields_)
+                R.check(ok, rule, f'{HOST}.reset | {tgt}.{kw}', f'from {sorted(fields_)}: the {fam} pool\'s {"packet length" if kind == "length" else "packet count"}',
+                        f'{tgt} is dimensioned with {kw}={norm(v) if v is not None else None} taken from {sorted(fields_) or "?"}: not the {fam} buffer pool\'s announced {"data packet length" if kind == "length" else "number of packets"} - fragments can exceed what the controller accepts / more packets in flight than advertised', p.loc(n))
+    R.check(n_q == 3, rule, f'{HOST}.reset | queues', '3 data queues (ACL, LE ACL, ISO) dimensioned', f'{n_q} DataPacketQueue constructions found (expected 3)', p.loc(fn))
+    # sharing: LE uses the classic queue only when the controller announced no LE pool
+    sh = [n for n in ast.walk(fn) if isinstance(n, ast.Assign) and dotted(n.targets[0]) == 'self.le_acl_packet_queue' and dotted(n.value) == 'self.acl_packet_queue']
+    g = [sorted(norm(t) for t, pol in paths.flat_guards(x) if pol) for x in sh]
+    R.check(len(sh) == 1 and g == [['le_acl_data_packet_length == 0 or total_num_le_acl_data_packets == 0']], rule, f'{HOST}.reset | shared pool', 'LE shares the classic queue iff the LE length or count is 0', 'the condition for sharing the classic buffer pool changed', p.loc(fn))
+
+
 RULES = [
+    ('C05.queue-geometry', queue_geometry),
     ('C05.acl-fragments', acl_fragments),
     ('C05.iso-fragments', iso_fragments),
     ('C05.assembler', assembler),
@@ -284,4 +338,6 @@ VARIANTS = [
     ('threshold off by header', 'bumble/hci.py', "        if len(self.current_data) == self.l2cap_pdu_length + 4:\n", "        if len(self.current_data) == self.l2cap_pdu_length:\n", 'fire', 'C05.assembler'),
     ('controller sends whole pdu again', 'bumble/controller.py', "        max_fragment_size = 0xFFFF\n", "        max_fragment_size = 0x1FFFF\n", 'fire', 'C05.acl-fragments'),
     ('benign: log line', 'bumble/host.py', "                '>>> ACL packet enqueue: (handle=0x%04X) %s',\n", "                '>>> ACL fragment enqueue: (handle=0x%04X) %s',\n", 'silent', ''),
+    ('LE queue sized with the classic packet length', 'bumble/host.py', "                max_packet_size=le_acl_data_packet_length,", "                max_packet_size=hc_acl_data_packet_length,", 'fire', 'C05.queue-geometry'),
+    ('ISO queue counts LE ACL buffers', 'bumble/host.py', "                max_in_flight=total_num_iso_data_packets,", "                max_in_flight=total_num_le_acl_data_packets,", 'fire', 'C05.queue-geometry'),
 ]
